@@ -23,11 +23,20 @@
     * address → range table → unit (`addr_to_unit`) and the tables that give nothing:
       `aranges_absent`, `aranges_empty_resolves_nothing`, `cu_containing_without_table`,
       `cu_lookup_no_info`.
+    * SIXTH WAVE — the lookups that end in an ENTRY, composed with C04 (imported: `Props/C04.lean`
+      `debug_info_exact`, `refs_info_exact`, the forest description `Spec.C04.Forest`):
+      `ref_addr_scan_agrees` (C13's bisect/cache model of `get_DIE_from_refaddr` = C04's linear scan
+      `Driver.C04.sectionRef`, every chain, every reachable cache state, every integer offset),
+      `ref_addr_resolution_exact` (DW_FORM_ref_addr to any entry of a well-formed forest: unit and
+      entry, from section bytes), `lut_entry_die_exact` / `name_to_die_exact`
+      (`get_pubnames()[name]` → `get_DIE_from_lut_entry` → the forest's entry: tag, attributes),
+      `addr_to_top_die` (address → range table → unit → `get_top_DIE()`).
   CORRESPONDENCE ONLY (model = code by differential runs, no theorem): the hand-written models
   themselves (the tie for control flow); malformed / truncated tables and every error class
   (`ar_raw`, `nm_raw`, `cu_raw`); `need_empty=True`; shadowed range tables (outside `noShadow`);
   name tables with ill-formed UTF-8; 64-bit-format range/name tables (not in the quantifier);
-  DIE decoding behind `get_DIE_from_lut_entry` (C04); the ELF container glue.
+  the per-unit DIE cache behind `_get_cached_DIE` (C10; the entry model is C04's pure parse-on-miss);
+  the ELF container glue.
 -/
 import PyElf.Spec.DwarfLookup
 import PyElf.Spec.DwarfStructs
@@ -39,6 +48,8 @@ import PyElf.Proofs.DieHeaders
 import PyElf.Proofs.DwarfUnitsAll
 import PyElf.Proofs.DwarfNameOrder
 import PyElf.Proofs.DwarfResolve
+import PyElf.Proofs.DwarfRefResolve
+import PyElf.Proofs.DwarfForest
 import PyElf.Props.TieC13
 namespace PyElf.Props.C13
 open PyElf PyElf.Spec.Lookup PyElf.Model.Lookup PyElf.Proofs.Lookup
@@ -542,5 +553,164 @@ example :
   decide
 
 example : wfNameSet false ⟨2, 0x10, 0x40, [⟨11, [0x6d, 0x61, 0x69, 0x6e]⟩, ⟨25, [0xc3, 0xa9]⟩]⟩ = true := by decide
+
+/-! ### sixth wave: lookups that end in an entry (composition with C04)
+
+  `Model/DwarfLookupDie.lean`: `getDIEFromRefaddr` (`DWARFInfo.get_DIE_from_refaddr`, DW_FORM_ref_addr),
+  `getDIEFromLutEntryDie` / `dieByName` (`get_DIE_from_lut_entry`, `get_pubnames()[name]`), `topDIEForAddr`
+  (address → range table → unit → `get_top_DIE()`), all through C13's model of the unit cache (bisect over
+  `_cu_offsets_map`), the entry read in the context C04's glue `unitCtx` builds for the unit object the cache
+  returned.  `Spec.C04.Forest` is C04's description of whole sections (abbreviation tables, units of versions 2–5
+  with trees of entries, string / address / list sections); `Props.C04.forestDInfo F dasz` is the `DWARFInfo` on its
+  encoding with everything else regenerated — the model C04's driver and this property's driver run;
+  `forestEntries F p` = what `debug_info_exact` says `iter_DIEs()` yields for the unit `p` (offset, size, code, tag,
+  child flag, attributes with name / form / raw value / resolved value / offset). -/
+
+/-- THE CONNECTION between the two models of DW_FORM_ref_addr resolution.  For every `DWARFInfo` `w` whose
+    `.debug_info` stream `data` is a chain of units `cs` for its own `_parse_CU_at_offset` (`chain_encoded`: every
+    encoded section is), every state `st` of the unit cache reachable by lookups (`Inv`; `cache_inv_initial`) and EVERY
+    integer `x` (an entry offset, a header offset, negative, beyond the section): `get_DIE_from_refaddr(x)` as C13 models
+    it — `get_CU_containing` by bisect over the cache and a scan from the closest cached unit, then the unit's
+    `get_DIE_from_refaddr` — answers exactly what C04's linear scan over all units (`Driver.C04.sectionRef` on
+    `sectionUnits`, the function C04's correspondence check runs) answers: the same unit, the same entry or the same
+    exception; and the cache stays reachable. -/
+theorem ref_addr_scan_agrees (w : Model.C04.DInfo) (S0 : DwarfStructs) (data : Bytes) (hinfo : w.info = some data)
+    (cs : List CU) (hch : Chain (infoParser w S0 data) data.length 0 cs) (st : CUCache)
+    (hinv : Inv (infoParser w S0 data) cs st) (x : Int) :
+    ∃ r st', getDIEFromRefaddr w S0 st x = (r, st') ∧ Inv (infoParser w S0 data) cs st' ∧
+      r.map (fun p => (p.1.cuOffset, p.2))
+        = Driver.C04.sectionRef (Model.C04.sectionUnits w S0 (some data) false) data.length x :=
+  getDIEFromRefaddr_eq_sectionRef w S0 data hinfo cs hch st hinv x
+
+/-- the `.debug_info` of every well-formed forest is such a chain (for the `DWARFInfo` as the drivers run it) -/
+theorem forest_unit_chain (F : Spec.C04.Forest) (dasz : Nat) (hdasz : dasz = 4 ∨ dasz = 8)
+    (hwf : Spec.C04.wfForestB Props.C04.genNames F = true) :
+    Chain (forestP F dasz) (Spec.C04.infoSec F).length 0 (forestCUs F) :=
+  forest_chain F dasz hdasz hwf
+
+/-- `ref_section_relative` / `refs_info_exact` of C04 OVER C13's MODEL, from section bytes, no hypothesis besides the
+    forest's well-formedness: for every entry `d` (null entries included) of every unit `p` of the `.debug_info` of a
+    well-formed forest and every reachable state of the unit cache, `dwarfinfo.get_DIE_from_refaddr(d.offset)` — what
+    `DIE.get_DIE_from_attribute` calls for DW_FORM_ref_addr — returns the unit object of `p` (`cuOf`: offset, first-entry
+    offset, format, header as encoded) and exactly the entry `d`, leaving a reachable cache; and the linear scan of
+    C04's driver designates the same unit offset and entry. -/
+theorem ref_addr_resolution_exact (F : Spec.C04.Forest) (dasz : Nat) (hdasz : dasz = 4 ∨ dasz = 8)
+    (hwf : Spec.C04.wfForestB Props.C04.genNames F = true) (p : Nat × Spec.C04.UnitDesc)
+    (hp : p ∈ Spec.C04.placeInfo F 0 F.units) (d : Spec.C04.DieObs) (hd : d ∈ forestEntries F p)
+    (st : CUCache) (hinv : Inv (forestP F dasz) (forestCUs F) st) :
+    (∃ st', getDIEFromRefaddr (Props.C04.forestDInfo F dasz) (Props.C04.genBundles F.le dasz).S0 st (d.offset : Int)
+          = (.ok (cuOf F.le p.1 (Spec.C04.infoUnitOf F p.2), d), st') ∧ Inv (forestP F dasz) (forestCUs F) st')
+      ∧ Driver.C04.sectionRef
+          (Model.C04.sectionUnits (Props.C04.forestDInfo F dasz) (Props.C04.genBundles F.le dasz).S0
+            (some (Spec.C04.infoSec F)) false)
+          (Spec.C04.infoSec F).length (d.offset : Int) = .ok (p.1, d) :=
+  forest_getDIEFromRefaddr F dasz hdasz hwf p hp d hd st hinv
+
+/-- non-vacuity: C04's example forest (three units of versions 4, 5, 2; `Props.C04.exForest_wf`), the entry at offset
+    26 of its first unit, the fresh cache -/
+example :
+    ∃ st', getDIEFromRefaddr (Props.C04.forestDInfo Props.C04.exForest 4) (Props.C04.genBundles true 4).S0 CUCache.empty 26
+      = (.ok (cuOf true 0 (Spec.C04.infoUnitOf Props.C04.exForest Props.C04.exForest.units[0]), Props.C04.exEntry), st') := by
+  have hmem : Props.C04.exEntry ∈ forestEntries Props.C04.exForest (0, Props.C04.exForest.units[0]) := List.getElem_mem _
+  obtain ⟨⟨st', h, _⟩, _⟩ := ref_addr_resolution_exact Props.C04.exForest 4 (Or.inl rfl) Props.C04.exForest_wf
+    (0, Props.C04.exForest.units[0]) (List.Mem.head _) _ hmem CUCache.empty (cache_inv_initial _ _)
+  have e : Props.C04.exEntry.offset = 26 := by decide +kernel
+  rw [e] at h
+  exact ⟨st', h⟩
+
+/-- `get_DIE_from_lut_entry(NameLUTEntry(cu_ofs, die_ofs))` END TO END: for an entry naming the start of the unit `p`
+    of a well-formed forest and the offset of its entry `d`, from every reachable cache state: the unit object of `p`
+    (through `get_CU_at`) and exactly the forest's entry `d` — tag, attributes, values as `debug_info_exact` lists them.
+    (`lut_entry_encoded` above is the unit-and-offset half on arbitrary unit bodies.) -/
+theorem lut_entry_die_exact (F : Spec.C04.Forest) (dasz : Nat) (hdasz : dasz = 4 ∨ dasz = 8)
+    (hwf : Spec.C04.wfForestB Props.C04.genNames F = true) (p : Nat × Spec.C04.UnitDesc)
+    (hp : p ∈ Spec.C04.placeInfo F 0 F.units) (d : Spec.C04.DieObs) (hd : d ∈ forestEntries F p)
+    (st : CUCache) (hinv : Inv (forestP F dasz) (forestCUs F) st) :
+    ∃ st', getDIEFromLutEntryDie (Props.C04.forestDInfo F dasz) (Props.C04.genBundles F.le dasz).S0 st p.1 d.offset
+        = (.ok (cuOf F.le p.1 (Spec.C04.infoUnitOf F p.2), d), st') ∧ Inv (forestP F dasz) (forestCUs F) st' :=
+  forest_lutEntryDie F dasz hdasz hwf p hp d hd st hinv
+
+/-- `dwarfinfo.get_DIE_from_lut_entry(dwarfinfo.get_pubnames()[name])` (or `get_pubtypes()`) FROM THE BYTES OF BOTH
+    SECTIONS: any well-formed encoded name table (several sets, repeated names: `names_exact_ordered`) and any
+    well-formed forest; if the table's entry for `name` — the LAST encoded one, `orderedLastWins` — names the unit `p`
+    and the offset of its entry `d`, the answer is the unit object of `p` and exactly `d`.  Composes
+    `names_exact_ordered`, `lut_entry_encoded` and C04's `debug_info_exact` / `refs_info_exact`. -/
+theorem name_to_die_exact (env : Env) (F : Spec.C04.Forest) (dasz dver : Nat) (hdasz : dasz = 4 ∨ dasz = 8)
+    (hwf : Spec.C04.wfForestB Props.C04.genNames F = true) (sets : List NameSet)
+    (hwfN : ∀ s ∈ sets, wfNameSet F.le s = true) (name : Bytes) (p : Nat × Spec.C04.UnitDesc)
+    (hp : p ∈ Spec.C04.placeInfo F 0 F.units) (d : Spec.C04.DieObs) (hd : d ∈ forestEntries F p)
+    (hitem : (name, p.1, d.offset) ∈ orderedLastWins (namePairs sets))
+    (st : CUCache) (hinv : Inv (forestP F dasz) (forestCUs F) st) :
+    ∃ st', dieByName env (Spec.dwarfStructs ⟨F.le, 32, dasz, dver⟩) (some (encNameSets F.le sets))
+          (Props.C04.forestDInfo F dasz) (Props.C04.genBundles F.le dasz).S0 st name
+        = (.ok (some (cuOf F.le p.1 (Spec.C04.infoUnitOf F p.2), d)), st')
+      ∧ Inv (forestP F dasz) (forestCUs F) st' :=
+  forest_dieByName env F dasz dver hdasz hwf sets hwfN name p hp d hd hitem st hinv
+
+/-- non-vacuity of `name_to_die_exact`: a table of two sets in which `x` occurs twice; its last occurrence names the
+    first unit of C04's example forest (offset 0) and the entry at offset 26 -/
+example :
+    let sets : List NameSet := [⟨2, 35, 55, [⟨43, [0x78]⟩, ⟨40, [0xc3, 0xa9]⟩]⟩, ⟨2, 0, 35, [⟨26, [0x78]⟩]⟩]
+    (∀ s ∈ sets, wfNameSet true s = true) ∧ (([0x78], 0, 26) : Bytes × Nat × Nat) ∈ orderedLastWins (namePairs sets) ∧
+      Props.C04.exEntry.offset = 26 ∧
+      Props.C04.exEntry ∈ forestEntries Props.C04.exForest (0, Props.C04.exForest.units[0]) :=
+  ⟨by decide, by decide, by decide +kernel, List.getElem_mem _⟩
+
+/-- ADDRESS → RANGE TABLE → UNIT → TOP ENTRY, exact from the bytes of `.debug_aranges`, `.debug_info`, `.debug_abbrev`
+    (and the string / offset sections the top entry's values resolve against): for every well-formed, shadow-free
+    encoded range table whose unit offsets are starts of units of a well-formed forest, every reachable cache state,
+    either lookup function and every address: nothing when no encoded range contains the address (cache untouched);
+    otherwise the unit `p` starting at the offset of the containing range and `p.get_top_DIE()` = the FIRST entry of the
+    unit as `debug_info_exact` lists it, lying at the unit's first-entry offset (`addr_to_unit` composed with C04's
+    `top_die_roundtrip` through `debug_info_exact`). -/
+theorem addr_to_top_die (env : Env) (F : Spec.C04.Forest) (dasz dver : Nat) (hdasz : dasz = 4 ∨ dasz = 8)
+    (hwf : Spec.C04.wfForestB Props.C04.genNames F = true) (sets : List ARSet) (hwfS : wfSets F.le 0 sets = true)
+    (hns : (entriesOf F.le 0 sets).Pairwise noShadow)
+    (hstarts : ∀ e ∈ entriesOf F.le 0 sets, ∃ p ∈ Spec.C04.placeInfo F 0 F.units, p.1 = e.infoOff)
+    (st : CUCache) (hinv : Inv (forestP F dasz) (forestCUs F) st) (byC : Bool) (a : Nat) :
+    ∃ t, getAranges env (Spec.dwarfStructs ⟨F.le, 32, dasz, dver⟩) (some (encSets F.le 0 sets)) = .ok (some t) ∧
+      match cuOffsetAt (entriesOf F.le 0 sets) a with
+      | none => topDIEForAddr byC (some t) (Props.C04.forestDInfo F dasz) (Props.C04.genBundles F.le dasz).S0 st a
+                  = (.ok none, st)
+      | some o => ∃ p ∈ Spec.C04.placeInfo F 0 F.units, p.1 = o ∧ ∃ top rest st', forestEntries F p = top :: rest ∧
+          top.offset = Spec.C04.infoDieOff F p.1 p.2 ∧
+          topDIEForAddr byC (some t) (Props.C04.forestDInfo F dasz) (Props.C04.genBundles F.le dasz).S0 st a
+            = (.ok (some (cuOf F.le p.1 (Spec.C04.infoUnitOf F p.2), top)), st') ∧
+          Inv (forestP F dasz) (forestCUs F) st' :=
+  forest_topDIEForAddr env F dasz dver hdasz hwf sets hwfS hns hstarts st hinv byC a
+
+/-- non-vacuity of `addr_to_top_die`: a range table naming the units at offsets 35 and 0 of C04's example forest (units
+    at 0, 35, 90), unsorted and adjacent ranges -/
+example :
+    let sets : List ARSet := [⟨2, 35, 8, [⟨0x2000, 0x10⟩, ⟨0x1000, 0x20⟩], 0, []⟩, ⟨2, 0, 4, [⟨0x1020, 8⟩], 0xAA, []⟩]
+    wfSets true 0 sets = true ∧ (entriesOf true 0 sets).Pairwise noShadow ∧
+      (entriesOf true 0 sets).all (fun e =>
+        (Spec.C04.placeInfo Props.C04.exForest 0 Props.C04.exForest.units).any (fun p => p.1 == e.infoOff)) = true :=
+  ⟨by decide, by decide, by decide +kernel⟩
+
+/-- non-vacuity of `ref_addr_scan_agrees`: the example forest's `DWARFInfo`, its unit chain, the fresh cache, and
+    (for instance) the offsets 26 (an entry), 3 (inside a header), -1 and 1000 (outside the section) -/
+example (x : Int) := ref_addr_scan_agrees (Props.C04.forestDInfo Props.C04.exForest 4) (Props.C04.genBundles true 4).S0 _ rfl _
+  (forest_unit_chain Props.C04.exForest 4 (Or.inl rfl) Props.C04.exForest_wf) CUCache.empty (cache_inv_initial _ _) x
+
+/-- the lookups never read the `DWARFInfo`'s `.debug_types` descriptor: the theorems below, stated for the forest's
+    `DWARFInfo` as C04 states `debug_info_exact` (`types := some (typesSec F)`), are equally about the `DWARFInfo` the
+    driver and the harness build (no `.debug_types`: `types := none`) -/
+theorem lookups_ignore_types (w : Model.C04.DInfo) (t : Option Bytes) (S0 : DwarfStructs) (st : CUCache) :
+    (∀ x, getDIEFromRefaddr { w with types := t } S0 st x = getDIEFromRefaddr w S0 st x) ∧
+    (∀ c d, getDIEFromLutEntryDie { w with types := t } S0 st c d = getDIEFromLutEntryDie w S0 st c d) ∧
+    (∀ env S sec nm, dieByName env S sec { w with types := t } S0 st nm = dieByName env S sec w S0 st nm) ∧
+    (∀ byC tb a, topDIEForAddr byC tb { w with types := t } S0 st a = topDIEForAddr byC tb w S0 st a) :=
+  ⟨fun _ => rfl, fun _ _ => rfl, fun _ _ _ _ => rfl, fun _ _ _ => rfl⟩
+
+example :
+    ∃ st', getDIEFromLutEntryDie (Props.C04.forestDInfo Props.C04.exForest 4) (Props.C04.genBundles true 4).S0 CUCache.empty 0 26
+      = (.ok (cuOf true 0 (Spec.C04.infoUnitOf Props.C04.exForest Props.C04.exForest.units[0]), Props.C04.exEntry), st') := by
+  have hmem : Props.C04.exEntry ∈ forestEntries Props.C04.exForest (0, Props.C04.exForest.units[0]) := List.getElem_mem _
+  obtain ⟨st', h, _⟩ := lut_entry_die_exact Props.C04.exForest 4 (Or.inl rfl) Props.C04.exForest_wf
+    (0, Props.C04.exForest.units[0]) (List.Mem.head _) _ hmem CUCache.empty (cache_inv_initial _ _)
+  have e : Props.C04.exEntry.offset = 26 := by decide +kernel
+  rw [e] at h
+  exact ⟨st', h⟩
 
 end PyElf.Props.C13
